@@ -119,7 +119,7 @@ def _run_chunk(verif_seed, tier, start, end):
             bad.append(r)
             runs.append((i, r['status'], None, False))
         else:
-            runs.append((i, 'ok', r['digest'], bool(prop.nontrivial(r['stats']))))
+            runs.append((i, 'ok', int(r['digest'], 16) if r['digest'] else 0, bool(prop.nontrivial(r['stats']))))
             if i < 3:
                 samples.append((i, case))
     faulthandler.cancel_dump_traceback_later()
